@@ -40,6 +40,13 @@ def run(chk):
             behs += b
         n = {'N': N, 'CAP': CAP, 'MAXSEND': MS, 'RECV': RV, 'OWN': OWN}
         traces, drifts, infos = cc.replay_all(behs, scen, n, units, seed=seed + 29, framings=framings)
+        # the same schedules with one handler per connection driven as --threaded mode does (own selector, run() loop iteration per
+        # tick, shutdown() flushing with the blocking _flush()); judged by the same syscall-level clauses, no tick-level comparison
+        t2, _d2, i2 = cc.replay_all(behs[::3], scen, n, units, seed=seed + 29 + 1, framings=framings, threaded=True)
+        for t, i in zip(t2, i2):
+            t['id'] = i['id'] = len(traces) + 1
+            traces.append(t)
+            infos.append(i)
         drift_total += len(drifts)
         for d in drifts[:5]:
             print('MODEL-DRIFT (not a violation): ConnTick and the code disagree at step %(step)s (%(action)s) on %(var)s' % d, d)
@@ -52,7 +59,7 @@ def run(chk):
             sig = cc.classify(clause, traces[tid - 1], idx)
             info = infos[tid - 1]
             chk.violation(sig, '%s schedule %s (unit %d bytes, %d piece(s)): %s' % (
-                scen, ' '.join(info['schedule']), info['U'], info['pieces'], clause),
+                scen + ('/threaded' if info.get('mode') == 'threaded' else ''), ' '.join(info['schedule']), info['U'], info['pieces'], clause),
                 {'info': info, 'rejected_event_index': idx, 'events': traces[tid - 1]['ev'][max(0, idx - 12):idx + 1]})
         for info, tr in list(zip(infos, traces))[:2]:
             chk.sample({'scenario': info['scen'], 'unit_bytes': info['U'], 'pieces': info['pieces'], 'schedule': info['schedule'],
